@@ -659,6 +659,14 @@ func (vt *Model) decstbm(pm [][]int) {
 		top = row(pm[0][0] - 1)
 		bot = row(pm[1][0] - 1)
 	}
+	// An omitted or zero parameter means the first / the last line, and the
+	// region never extends beyond the screen
+	if top < 0 {
+		top = 0
+	}
+	if bot < 0 || bot > row(vt.height())-1 {
+		bot = row(vt.height()) - 1
+	}
 	if top >= bot {
 		return
 	}
